@@ -151,8 +151,36 @@ Definition prefix_expr (fmt_hole : str) (delim pfx : str) (g : list seg) : expr 
   end.
 
 (** generatePrefixStringTemplate of the Dart generator: fmt.Sprintf is applied to the template
-    at GENERATION time with "$var" arguments *)
+    at GENERATION time with one argument per variable: "$var", or "${var}" where the text that
+    follows the variable in the template (the next literal character, or the delimiter after a
+    trailing variable) starts with a letter, a digit or '_' (since "fix: Dart scope prefix
+    interpolates a variable as ${name} where the next character would be read as part of the
+    name"; was known finding C08-dart-delim-after-variable) *)
+Definition dart_braced (v : str) : str := 36 :: 123 :: v ++ [125].
+Fixpoint dart_args (g : list seg) (after : str) : list str :=
+  match g with
+  | [] => []
+  | Lit _ :: g' => dart_args g' after
+  | Var n :: g' =>
+    (if (match g' with
+         | Lit c :: _ => is_word c
+         | Var _ :: _ => false
+         | [] => match after with c :: _ => is_word c | [] => false end
+         end)
+     then dart_braced n else dollar n) :: dart_args g' after
+  end.
+
 Definition dart_prefix_raw (delim pfx : str) (g : list seg) : option str :=
+  match pfx with
+  | [] => Some []
+  | _ => match vars_of g with
+         | [] => Some (template pct_s g ++ delim)
+         | _ => go_fmt (template pct_s g ++ delim) false (dart_args g delim)
+         end
+  end.
+
+(** the same before that repair: always "$var" *)
+Definition dart_prefix_raw_pinned (delim pfx : str) (g : list seg) : option str :=
   match pfx with
   | [] => Some []
   | _ => match vars_of g with
@@ -395,7 +423,8 @@ Definition vars_safe (l : lang) (sd : side) (op : str) (vars : list str) : bool 
   | Py => negb (mem n_self_DELIMITER vars)
   end.
 
-(** Dart's $name form: the character after a variable must not continue the identifier *)
+(** Dart's $name form: the character after a variable must not continue the identifier (a side
+    condition of the Dart statements before the repair; no longer part of [in_domain]) *)
 Fixpoint dart_follow (g : list seg) (after : str) : bool :=
   match g with
   | [] => true
@@ -419,5 +448,5 @@ Definition in_domain (l : lang) (delim sc op pfx : str) : bool :=
           (nov || (no_char 123 (lits_of g) && no_char 125 (lits_of g) &&
                    no_char 123 delim && no_char 125 delim))
   | Dart => lit_ok 39 pfx && lit_ok 39 delim && no_char 36 pfx && no_char 36 delim &&
-            (nov || (no_char 37 pfx && no_char 37 delim)) && dart_follow g delim
+            (nov || (no_char 37 pfx && no_char 37 delim))
   end.
